@@ -137,7 +137,8 @@ fn listed_short_route(op: &Op) -> Option<usize> {
     match op {
         Op::FromText { via, text, .. } => match via {
             Via::Str | Via::String | Via::RefString | Via::BoxStr | Via::CowB | Via::CowO | Via::Parse | Via::Utf8
-            | Via::ToLeanString => Some(text.len()),
+            | Via::ToLeanString
+            | Via::TryToLeanString => Some(text.len()),
             _ => None,
         },
         _ => None,
@@ -416,7 +417,7 @@ impl World {
                     }
                 }
                 // FromStr::from_str / str::parse is a fallible form too: its only error is ReserveError
-                let fallible = (try_flag(op) && has_try_form(op)) || matches!(op, Op::FromText { via: Via::Parse, .. });
+                let fallible = (try_flag(op) && has_try_form(op)) || matches!(op, Op::FromText { via: Via::Parse | Via::TryToLeanString, .. });
                 if matches!(real, Outcome::Panic(..)) && fallible {
                     for c in ["C05.try_form_panicked", "C06.try_form_panicked"] {
                         f.push(Failure::new(c, format!("try_ form of {} panicked instead of returning ReserveError", op.name())));
